@@ -407,4 +407,145 @@ where
           omega
         exact hnej (idxOf_inj _ aj bj hajv hbv this)
 
+/-- **prefix completeness of every non-terminal**: nothing better than a popped program is left unpopped -/
+theorem prefixOK_all (H : OHyp E rank Good) {s : St U π} (hb : Base E s) (hall : All E rank s) :
+    ∀ (r : Nat) (nt : UNT U), rank nt = r → Full E rank s nt → PrefixOK E s nt := by
+  intro r
+  induction r using Nat.strongRecOn with
+  | _ r ih =>
+  intro nt hr hf x y hx hy hny
+  obtain ⟨e, he, hle⟩ := dominated H hb hall nt hf (fun sj hsj hfj => ih (rank sj) (by omega) sj rfl hfj) y hy hny
+  have hde : Der E e.2 nt := hb.sinv.seen_der nt e.2 (hb.sinv.heap_seen nt e he)
+  exact LE.trans H hde (hf.1.heap_le x hx e he) hle
+
+/-! ### the generator level -/
+
+/-- **PREFIX COMPLETENESS of the enumeration** (every fuel, every prefix, stopped or not): a member that is
+    strictly better than a yielded program has been yielded -/
+theorem take_prefix_complete (R : RHyp E rank Good) (fuel k : Nat) (s' : St U π) (out : List Prog) (b : Bool)
+    (h : take E fuel k (St.empty E.G) [] = some (s', out, b)) (p q : Prog) (hq : q ∈ out) (kp kq : π)
+    (hkp : StartKey E p kp) (hkq : StartKey E q kq) (hlt : E.ops.lt kp kq = true) : p ∈ out := by
+  have H := R.ohyp
+  obtain ⟨emE, hc, hout, _⟩ := (oc_empty E).take R k rfl h
+  have hog := hc.og
+  rw [hout, List.mem_reverse] at hq ⊢
+  obtain ⟨xq, hxq, hxqe⟩ := List.mem_map.mp hq
+  -- the key of the yielded `q` is the priority of its entry
+  have hkq' : kq = xq.1 := by
+    obtain ⟨nt, w, pr, hw, hpr, hk⟩ := hkq
+    obtain ⟨w2, pr2, hw2, hpr2, he2⟩ := hog.em_key xq hxq
+    rw [hxqe] at hpr2
+    have hnt : nt = xq.2.2 := R.disj q nt xq.2.2 ⟨pr, hpr⟩ ⟨pr2, hpr2⟩ ⟨w, hw⟩ ⟨w2, hw2⟩
+    subst hnt
+    rw [hw] at hw2; cases hw2
+    rw [hk, he2, hasPrio_fun H _ _ _ _ hpr hpr2]
+  obtain ⟨nt, w, prp, hw, hprp, hkpe⟩ := hkp
+  apply Classical.byContradiction
+  intro hnp
+  have hinit : s'.initS ≠ [] := by
+    intro h0
+    have := (hog.ginv.inited h0).2
+    have : emE = [] := by simpa using this
+    rw [this] at hxq; cases hxq
+  have hnotem : (p, nt) ∉ emE.map (·.2) := by
+    intro hm
+    obtain ⟨x, hx, hxe⟩ := List.mem_map.mp hm
+    exact hnp (List.mem_map.mpr ⟨x, hx, by rw [hxe]⟩)
+  by_cases hheap : nt ∈ s'.startHeap.map (·.2.2)
+  · obtain ⟨f, hf, hfe⟩ := List.mem_map.mp hheap
+    have hfull : Full E rank s' nt := by
+      have hfront := hog.ginv.front f hf
+      rw [hfe] at hfront
+      rcases hog.all nt with hu | hfu
+      · rw [hu.2.2.1] at hfront; cases hfront
+      · exact hfu
+    have hfpop : Popped s' nt f.2.1 := by
+      have := hog.ginv.front f hf
+      rw [hfe] at this
+      exact ⟨_, this⟩
+    -- the front entry is not worse than the unemitted `p`
+    have hlefp : LE E nt f.2.1 p := by
+      by_cases hpp : Popped s' nt p
+      · -- `p` is on the chain after the programs taken from `nt`
+        have hC := hog.ginv.chain nt
+        have hfront := hog.ginv.front f hf
+        rw [hfe] at hfront
+        have key : ∀ x, Popped s' nt x → x ∈ doneR (emE.map (·.2)) nt ∨ LE E nt f.2.1 x := by
+          apply popped_induct hfull.1
+          · intro x hx
+            cases hD : doneR (emE.map (·.2)) nt with
+            | nil =>
+              rw [hD] at hfront
+              simp only [List.head?_nil] at hfront
+              rw [hx] at hfront
+              cases hfront
+              exact Or.inr (LE.refl H nt _)
+            | cons d ds =>
+              left
+              obtain ⟨a, x0, hax⟩ := snoc_of_ne_nil (d :: ds) (by simp)
+              rw [hD, hax] at hC
+              have := chainR_split _ x0 [] a hC
+              simp only [List.head?_nil] at this
+              rw [hx] at this
+              cases this
+              rw [hax]; simp
+          · intro y z hy hyz
+            rcases hy with hy | hy
+            · obtain ⟨a, b', hab⟩ := List.append_of_mem hy
+              cases a with
+              | nil =>
+                rw [hab] at hfront
+                simp only [List.nil_append, List.head?_cons] at hfront
+                rw [hyz] at hfront
+                cases hfront
+                exact Or.inr (LE.refl H nt _)
+              | cons a0 a' =>
+                left
+                obtain ⟨a'', z', haz⟩ := snoc_of_ne_nil (a0 :: a') (by simp)
+                rw [hab, haz, List.append_assoc] at hC
+                have := chainR_split _ z' (y :: b') a'' (by simpa using hC)
+                simp only [List.head?_cons] at this
+                rw [hyz] at this
+                cases this
+                rw [hab, haz]; simp
+            · exact Or.inr (LE.trans H ((Popped.der hog.base.sinv ⟨_, AList.lookup_some_mem hyz |> fun hm =>
+                lookup_of_mem hfull.1.keys_nodup hm⟩)) (LE.trans H (by
+                  -- `y` is popped: it is a key of the table
+                  cases hly : AList.lookup (some y) (s'.succOf nt) with
+                  | none => rw [hly] at hyz; cases hyz
+                  | some _ =>
+                    have : Popped s' nt y := by
+                      have hkm := AList.lookup_some_mem hyz
+                      -- the key `some y` occurs after an entry with value `y`
+                      obtain ⟨l1, l2, hsplit⟩ := List.append_of_mem hkm
+                      have hch := hfull.1.chain
+                      rw [hsplit] at hch
+                      rcases chainL_key_pred l1 none y z l2 hch with ⟨_, h2⟩ | ⟨l0, k', h1⟩
+                      · cases h2
+                      · exact ⟨k', lookup_of_mem hfull.1.keys_nodup (by rw [hsplit, h1]; simp)⟩
+                    exact this.der hog.base.sinv) hy (hfull.1.sorted y z hyz)) (LE.refl H nt z))
+        rcases key p hpp with hin | hle
+        · exact absurd ((mem_doneR _ p nt).mp hin) hnotem
+        · exact hle
+      · exact prefixOK_all H hog.base hog.all (rank nt) nt rfl hfull f.2.1 p hfpop ⟨prp, hprp⟩ hpp
+    -- keys: kq ≤ key f ≤ kp
+    obtain ⟨wf, prf, hwf, hprf, hfk⟩ := hog.base.sinv.start_ok f hf
+    rw [hfe] at hwf hprf
+    rw [hw] at hwf; cases hwf
+    have h1 : E.ops.lt f.1 xq.1 = false := hog.heap_ge f hf xq hxq
+    have h2 : E.ops.lt kp f.1 = false := by
+      rw [hkpe, hfk]
+      exact R.adj_mono prp prf nt w hw (hasPrio_good H _ _ _ hprp) (hasPrio_good H _ _ _ hprf) (hlefp prf prp hprf hprp)
+    have := H.weak.ntrans _ _ _ h1 h2
+    rw [← hkq', hlt] at this
+    cases this
+  · -- the start symbol is exhausted: everything derivable from it was popped and handed over
+    have hex := hc.exh hinit nt w hw hheap
+    have hfull : Full E rank s' nt := by
+      rcases hog.all nt with hu | hfu
+      · have := hex.1; rw [hu.1] at this; cases this
+      · exact hfu
+    have hpp := exhausted_complete H hog.base hog.all (rank nt) nt rfl hfull hex.2.1 p ⟨prp, hprp⟩
+    exact hnotem (hex.2.2 p hpp)
+
 end PS.UHS
